@@ -101,6 +101,9 @@ def _solve_part(part):
 def classify(obs):
     solver_obs = []
     for o in obs:
+        if o.meta.get("engine_error"):
+            o.status, o.backend, o.detail = "unknown", "engine", o.meta["engine_error"]
+            continue
         lit = literal(o.goal) if not o.hyps else (True if literal(o.goal) is True else None)
         if lit is True:
             o.status, o.backend = "unsat", "structural"
@@ -228,7 +231,7 @@ def refute(chk, build, obs, ground_sizes, replay, t0, second_pass=None):
     if rest and second_pass and (len(rest) <= 32 or not chk.findings):
         # second pass: rebuild only what is left and try the remaining strategies
         again = safe_build(build, None, chk, "second-pass build", only={o.id for o in rest}) or []
-        again = [a for a in again if a.id in {o.id for o in rest}]
+        again = [a for a in again if a.id in {o.id for o in rest} and not a.meta.get("engine_error")]
         sol = classify(again)
         discharge(sol, timeout_s=second_pass * 2, modes=("cvc5", "inst", "direct"))
         byid = {a.id: a for a in again}
